@@ -2603,6 +2603,26 @@ static void cfg_indent(FILE *fp, int indent)
 		fprintf(fp, "  ");
 }
 
+/* write an annotation as a comment that the lexer reads back */
+static void cfg_print_comment(FILE *fp, const char *comment)
+{
+	const char *p;
+
+	if (strstr(comment, "*/") && !strchr(comment, '\n')) {
+		/* would end a C comment early: a one-line comment holds it as it is */
+		fprintf(fp, "# %s\n", comment);
+		return;
+	}
+
+	fprintf(fp, "/* ");
+	for (p = comment; *p; p++) {
+		fputc(*p, fp);
+		if (p[0] == '*' && p[1] == '/')
+			fputc(' ', fp);
+	}
+	fprintf(fp, " */\n");
+}
+
 static int cfg_opt_print_pff_indent(cfg_opt_t *opt, FILE *fp,
 				    cfg_print_filter_func_t pff, int indent)
 {
@@ -2613,7 +2633,7 @@ static int cfg_opt_print_pff_indent(cfg_opt_t *opt, FILE *fp,
 
 	if (is_set(CFGF_COMMENTS, opt->flags) && opt->comment) {
 		cfg_indent(fp, indent);
-		fprintf(fp, "/* %s */\n", opt->comment);
+		cfg_print_comment(fp, opt->comment);
 	}
 
 	if (opt->type == CFGT_SEC) {
